@@ -19,6 +19,14 @@ RULE = ("sequences of length 0..6 over a 19-value pool (None, NaN, Python bool/i
         "trip, rebuild-equal, equal reflexive/symmetric/transitive, na_dtype holds na_value, drop_na / replace_na; non-trivial = length>=2 "
         "with a missing and a non-missing element; thorough: all sequences of length<=3 over the pool x all dtype options")
 
+class Stamp(datetime.datetime):
+    """an instance of a proper subclass of datetime (what pandas.Timestamp is)"""
+
+
+class Day(datetime.date):
+    pass
+
+
 POOL = {
     "None": None, "nan": float("nan"), "True": True, "False": False, "1": 1, "big": 2 ** 53 + 1, "1.5": 1.5, "a": "a", "empty": "",
     "date": datetime.date(2020, 1, 2), "datetime": datetime.datetime(2020, 1, 2, 3, 4, 5), "timedelta": datetime.timedelta(days=1, seconds=5),
@@ -26,15 +34,17 @@ POOL = {
     "np.nan": np.float64("nan"), "np.dt": np.datetime64("2020-01-02"), "np.str": np.str_("z"),
     # extreme but non-missing floats: they are values like any other for is_na / drop_na / replace_na / equal
     "inf": float("inf"), "-inf": float("-inf"), "-0.0": -0.0, "huge": 1.7976931348623157e308,
+    "stamp": Stamp(2020, 1, 2, 12, 0, 0), "day": Day(2020, 1, 3),
 }
 KIND = {"None": "none", "nan": "nan", "True": "bool", "False": "bool", "1": "int", "big": "int", "1.5": "float", "a": "str", "empty": "str",
         "date": "date", "datetime": "datetime", "timedelta": "timedelta", "bytes": "bytes", "tuple": "obj", "np.bool": "npbool",
         "np.int": "npint", "np.float": "npfloat", "np.nan": "npnan", "np.dt": "npdt", "np.str": "npstr",
-        "inf": "float", "-inf": "float", "-0.0": "float", "huge": "float"}
+        "inf": "float", "-inf": "float", "-0.0": "float", "huge": "float", "stamp": "datesub", "day": "datesub"}
 DTYPES = [None, "bool", "int", "float", "str", "object", "datetime64[D]", "datetime64[us]", "timedelta64[s]"]
 FAMILIES = [["True", "False"], ["1", "big"], ["1.5", "1"], ["a", "empty"], ["date"], ["datetime"], ["timedelta"], ["bytes"], ["tuple", "1"],
             ["np.bool"], ["np.int"], ["np.float", "np.nan"], ["np.dt"], ["np.str"], ["True", "1"], ["1", "a"], ["date", "datetime"],
-            ["True", "1.5"], ["a", "1.5"], ["1.5", "inf", "-inf"], ["inf", "-0.0", "huge", "1"]]
+            ["True", "1.5"], ["a", "1.5"], ["1.5", "inf", "-inf"], ["inf", "-0.0", "huge", "1"],
+            ["stamp"], ["day"], ["stamp", "datetime"], ["day", "date"]]
 
 
 def gen_case(rng, tier):
